@@ -1010,9 +1010,9 @@ func vC10Gen(e *vEnv, r *vRand) []vCase {
 	}
 	switch os.Getenv("VERIF_C10_ONLY") {
 	case "rcpt":
-		return vC10GenRcpt(e, newVRand(uint64(e.seed)*0x9e3779b97f4a7c15+0xc10c), e.scale(40, 150))
+		return vC10GenRcpt(e, newVRand(uint64(e.seed)*0x9e3779b97f4a7c15+0xc10c), e.scale(40, 100))
 	case "remote":
-		return vC10GenRemote(e, newVRand(uint64(e.seed)*0x9e3779b97f4a7c15+0xc10d), e.scale(15, 40))
+		return vC10GenRemote(e, newVRand(uint64(e.seed)*0x9e3779b97f4a7c15+0xc10d), e.scale(15, 30))
 	}
 	var cases []vCase
 	ncases := e.scale(600, 3000)
@@ -1052,9 +1052,9 @@ func vC10Gen(e *vEnv, r *vRand) []vCase {
 	// the media code behind the handlers (own random stream: the cases above stay what they were)
 	cases = append(cases, vC10GenMedia(e, newVRand(uint64(e.seed)*0x9e3779b97f4a7c15+0xc10), e.scale(30, 150))...)
 	// the recipient's side (bystander detached / resumed, in no room, in the call, with hide-displaynames)
-	cases = append(cases, vC10GenRcpt(e, newVRand(uint64(e.seed)*0x9e3779b97f4a7c15+0xc10c), e.scale(40, 150))...)
+	cases = append(cases, vC10GenRcpt(e, newVRand(uint64(e.seed)*0x9e3779b97f4a7c15+0xc10c), e.scale(40, 100))...)
 	// a sender that is not a websocket of this hub
-	cases = append(cases, vC10GenRemote(e, newVRand(uint64(e.seed)*0x9e3779b97f4a7c15+0xc10d), e.scale(15, 40))...)
+	cases = append(cases, vC10GenRemote(e, newVRand(uint64(e.seed)*0x9e3779b97f4a7c15+0xc10d), e.scale(15, 30))...)
 	return cases
 }
 
@@ -1230,7 +1230,7 @@ func (x *vC10Exec) msg(f []string) string {
 	// session that is still being removed, on a loaded machine) is not an effect of this frame
 	before := w.digest()
 	for i := 0; i < 40; i++ {
-		time.Sleep(250 * time.Microsecond)
+		time.Sleep(100 * time.Microsecond)
 		again := w.digest()
 		if again == before {
 			break
